@@ -80,6 +80,13 @@ def run(spec, rec):
         fs = Spectrum(data, mask=mask, mask_corners=corners, pop_ids=ids)
         if folded:
             fs = fs.fold()
+        if fs.folded and rng.random() < 0.35:
+            # a folded spectrum whose mask leaves an entry of the folded-out half visible (someone unmasked it by hand): an
+            # unusual mask pattern, but what is stored must be what comes back
+            tot = sum(np.indices(fs.shape))
+            out_half = np.argwhere(tot > (sum(fs.shape) - fs.ndim) / 2.0)
+            if len(out_half):
+                fs.mask[tuple(out_half[int(rng.integers(len(out_half)))])] = False
         if layout == "view":
             order = [int(v) for v in rng.permutation(ndim) + 1]
             if order == sorted(order):
